@@ -24,25 +24,25 @@ P = {
  "C06": ("runtime monitor: set of all issued ids (unique-value discipline) + is_removed of every historical id; generation-churn workload across and beyond the i16 stamp range",
          "Exploration: 70 000..500 000 recycle cycles of 1-7 slots (more than twice the counter range), every id ever issued re-checked at checkpoints and in a window around each counter wrap, plus mixed histories with clear(); dev build adds overflow checks.",
          "No assumption on how generations are encoded; retirement of an exhausted slot is accepted.", "DESIGN.md 4/C06"),
- "C07": ("runtime monitor: available-slot set model at every allocation, bystander equality against the pre-call snapshot, drain probes on clones (whole free list observed through behaviour), retirement threshold",
-         "Exploration: alloc/free interleavings with many simultaneously free slots, remove_subtree bursts, re-freeing of recycled slots; two-round drain probe at every checkpoint; churn workload for retirement.",
+ "C07": ("runtime monitor: available-slot set model at every allocation (new_node, append_value), bystander equality against the pre-call snapshot, drain probes on clones (whole free list observed through behaviour), retirement threshold; generated tree! programs on arenas with free slots judged on their allocation facts",
+         "Exploration: alloc/free interleavings with many simultaneously free slots, remove_subtree bursts, re-freeing of recycled slots; two-round drain probe at every checkpoint; churn workloads for retirement (by remove, by remove_subtree, by clear()); ballast forests of up to 2100 nodes; tree! literals (count() growth against free slots, one live node per expression, existing nodes unchanged).",
          "Reuse ORDER is not part of the property and not checked; a slot may stop being offered only after >= 10 000 recycles.", "DESIGN.md 4/C07"),
  "C08": ("runtime monitor on a drop-counting heap payload: payload identity through every read path after every call, per-token drop counters, conservation created = live + dropped; Miri and ASan+LeakSanitizer as independent oracles",
          "Exploration: every live node's token and value re-read after every call of histories with get_mut/IndexMut/iter_mut writes, value replacement, clear and arena drop; drop table holds integers only so leak detectors are not blinded.",
          "Sanitizer runs are additional oracles on smaller workloads, not the deciding step for the behavioural part.", "DESIGN.md 4/C08"),
- "C09": ("runtime monitor: every traversal iterator from every live start node compared with the sequence defined by the reference model; next/prev_traverse inverse + expected value on every edge",
+ "C09": ("runtime monitor: every traversal iterator from every live start node compared with the sequence defined by the reference model; next/prev_traverse inverse + expected value on every edge; internal-iteration laws (fold, count, last, nth, skip/step_by, any/all/find/position/find_map, size_hint) on fresh and partly consumed iterators",
          "Exploration: all start nodes of all checkpoint states of restructuring histories and of every enumerated shape (<= 7/8 nodes, complete), all nine iterators + stepping.",
          "Expected sequences come from the model, which is verified equal to the arena's links at the same boundary.", "DESIGN.md 4/C09"),
  "C10": ("runtime monitor: all 2^(k+2) front/back pull patterns (sampled above k=5) on children / preceding_siblings / following_siblings of every live node against the forward sequence",
          "Exploration: every node class (parentless with/without top-level siblings, only child, first/middle/last child, childless) in every enumerated shape and at history checkpoints; rev() compared as well; pulls after exhaustion must be None.",
          "", "DESIGN.md 4/C10"),
- "C11": ("runtime monitor: agreement of all lookup paths (addresses of get/Index/get_mut/IndexMut/iter/as_slice, get_node_id, get_node_id_at, conversions) for every slot and out-of-range position after every call; Miri with randomised base addresses",
+ "C11": ("runtime monitor: agreement of all lookup paths (addresses of get/Index/get_mut/IndexMut/iter/as_slice, get_node_id, get_node_id_at, conversions) for every slot and out-of-range position (also 2^k + position) after every call; generation churn by remove and by clear(); Miri with randomised base addresses",
          "Exploration: states with removed and recycled slots, growth (buffer reallocation), clear; foreign node references from clones, other arenas, stack and heap copies.",
          "", "DESIGN.md 4/C11"),
  "C12": ("runtime monitor: removed-not-recycled slots report no links at every boundary; refusal + atomicity probes of all eight inserts and append_value with removed ids on clones; recycled slot starts without links",
          "Exploration: long-lived removed slots (allocation suppressed), both removal paths, dev and release (the relevant guard used to be a debug_assert), complete small-shape variants with a removed slot.",
          "", "DESIGN.md 4/C12"),
- "C13": ("lock-step differential monitors: same history on new() vs with_capacity(k); clone + divergent continuations vs scratch replays; cleared vs new arena under a common continuation; capacity guarantees; cross-build digest comparison",
+ "C13": ("lock-step differential monitors: same history on new() vs with_capacity(k); clone + divergent continuations vs scratch replays; cleared vs new arena under a common continuation; capacity guarantees (13 payload types, five of them zero-sized); Debug text of equal arenas; 34 000+ clear() rounds on one arena; cross-build digest comparison",
          "Exploration: 16 000 / 120 000 histories with reserve, writes, removed and recycled slots before the clone/clear point.",
          "Arena equality is the derived PartialEq (all slots + free-list ends).", "DESIGN.md 4/C13"),
  "C14": ("runtime monitor: reference renderer over the model vs debug_pretty_print in four format modes, payloads written in irregular write_str chunks",
@@ -57,12 +57,12 @@ P.update({
  "C16": ("runtime monitor: round trip through serde_json (visit_map path) and an in-harness positional format (visit_seq path) at random points of hostile histories; equality, per-id is_removed/links/payload agreement, then lock-step continuation on the copies",
          "Exploration: ~10^5 round trips per run over states with removed, recycled and pending reusable slots; every later call is applied to original and copies and must return the same result and leave equal arenas.",
          "serde, serde_json and the positional format are trusted.", "DESIGN.md 4/C16"),
- "C17": ("offline checker over recorded observation logs: one seeded battery of histories is executed under 4 / 16 feature sets (library built no_std+alloc when std is off) and the per-history observation digests are compared; par_iter vs iter by address; tree! vs hand-built",
+ "C17": ("offline checker over recorded observation logs: one seeded battery of histories is executed under 4 / 16 feature sets (library built no_std+alloc when std is off) and the per-history observation digests are compared; par_iter vs iter by address; tree! vs hand-built; stale ids, bounded sinks, a size battery up to 100 000 nodes with capacity(), clear() churn",
          "Exploration over configurations x histories: every observable of the core API after every call (results incl. error text, ids, links, all traversals, pretty-printed text) is folded into a digest per history; any feature set whose digest differs is a violation.",
          "The harness links std in every configuration; only the library is compiled without it.", "DESIGN.md 4/C17"),
- "C18": ("compile-time gate observed by the type checker (Send/Sync/Freeze generic in T, -F unsafe_code) + runtime: 16 reader threads and par_iter on shared arenas compared with the single-thread digest, Miri data-race detector over several schedules, ThreadSanitizer in thorough",
+ "C18": ("compile-time gate observed by the type checker (Send/Sync of Arena<T>, Node<T>, NodeId generic in T with std, no_std and par_iter; Freeze; -F unsafe_code) + runtime: 16 reader threads and par_iter on shared arenas compared with the single-thread digest (scoped, long-lived with in-place edits between rounds, and all threads released by a barrier onto one arena of 30 000+ nodes), Miri data-race detector over several schedules, ThreadSanitizer in thorough",
          "The for-all-T / for-all-schedules part is decided by the compiler; the runtime part observes hundreds of distinct interleavings (counted) and two independent race detectors.",
-         "Freeze is shallow; interior mutability behind a pointer is only caught if it changes observations or races.", "DESIGN.md 4/C18"),
+         "Freeze is shallow; interior mutability behind a pointer is only caught if it changes observations or races. Send/Sync of the iterator types is not asserted (the property does not state it).", "DESIGN.md 4/C18"),
 })
 
 NA = {}
